@@ -129,9 +129,9 @@ EXTRA = {
     "C14": "the descriptor handler is registered exactly when descriptors are enabled (facts + reachability); generated constructor code never truth-tests a generic field value; digest setters validate before they store (taken over from C05); sub-modules read as package attributes are imported by module-level code that certainly ran",
     "C15": "RecordDescriptor equality implies equal name and field tuples (the caches are keyed by it); a grouped record's flat view reads from the owning member (known finding F15c for plain attribute access); generated constructor code never truth-tests a generic field value; _replace of a grouped record works on fresh members",
     "C16": "the split suffix never truncates the part number; the interpreted engine's namespace is rebuilt per record; the timestamp expansion reads the original record (from C15); the CSV writer starts a header per run of a record type (from C20); generated code never truth-tests a generic field value (taken over from C05); the matcher starts every record with fresh data (taken over from C10)",
-    "C17": "the archiver's template is instantiated with the record's own _generated value and the record itself; close() finalises unconditionally (no state flag); transaction control only in tx_cycle (from C18); the SQLite reader lists every table the writer can create (taken over from C18)",
+    "C17": "the archiver's template is instantiated with the record's own _generated value and the record itself; close() finalises unconditionally (no state flag); transaction control only in tx_cycle (from C18); the SQLite reader lists every table the writer can create (taken over from C18); one Avro container header per file (taken over from C19)",
     "C18": "memoised functions of the SQL adapters do not read the database; 'seen before' rests on descriptor equality by definition (from C15); normalize_fieldname leaves keywords alone",
-    "C19": "descriptors are never falsy (the writer tests the truth of self.desc); split rotation finalises the full part (from C17); an unmapped type raises before any field schema is appended (reachability); generated code never truth-tests a generic field value (taken over from C05)",
+    "C19": "descriptors are never falsy (the writer tests the truth of self.desc); split rotation finalises the full part (from C17); an unmapped type raises before any field schema is appended (reachability); generated code never truth-tests a generic field value (taken over from C05); one Avro container header per file whatever the order of flush() and write()",
     "C20": "the rendered text is written as rendered; the CSV dialect is sniffed from a block read of the file; the CSV header test rests on descriptor equality by definition (from C15); a grouped record's flat view reads from the owning member; the character substitution of normalize_fieldname precedes its prefix tests",
 }
 
